@@ -216,7 +216,7 @@ def main(tier, seed, replay=None):
         channels[ch.split(":")[0] + (":" + ch.split(":")[1] if ch.startswith(("doc", "raw")) else "")] = channels.get(ch.split(":")[0] + (":" + ch.split(":")[1] if ch.startswith(("doc", "raw")) else ""), 0) + 1
         if ch.startswith("raw"):
             note_raw(name, ch, e, ttl, opts)
-        if not name.startswith(("meta:", "adv+iterate:")) and (big or ch == "failure" or rng.random() < 0.35):
+        if not name.startswith(("meta:", "adv+iterate:")) and (big or ch == "failure" or ch == "doc:NotImplementedError" or rng.random() < 0.35):
             cli_jobs.append((name, ttl, opts, ch))
     n_mut = 2500 if big else 260
     for j in range(n_mut):
